@@ -2,7 +2,7 @@
 # usage: try_seeded.sh <seeded-name> <PROP> [tier]   applies a seeded change to /repo, runs a check, undoes it
 N=$1; P=$2; T=${3:-quick}
 cd /repo && git apply /verif/seeded/$N/patch.diff || { echo "patch failed"; exit 2; }
-cd /verif && ./check $P $T > /tmp/try_$N_$P.log 2>&1; rc=$?
+cd /verif && ./check $P $T > /tmp/try_${N}_${P}.log 2>&1; rc=$?
 cd /repo && git checkout -- . 
-grep -E "^VIOLATION|signature|^\[C|HARNESS" /tmp/try_$N_$P.log | head -${4:-8} | cut -c1-260
+grep -E "^VIOLATION|signature|^\[C|HARNESS" /tmp/try_${N}_${P}.log | head -${4:-8} | cut -c1-260
 echo "exit=$rc"
